@@ -193,6 +193,11 @@ def focused(tier):
                        {"A": klass([ARR], [SRV2], prio=1, cct={"B": [0.5, 1.5]}), "B": klass([None], [SRV2], prio=1),
                         "C": klass([{"values": [1.0, 2.0], "budget": 1}], [SRV2], prio=0)}, K=3 if tier == "quick" else 4,
                        D=5 if tier == "quick" else 8, features=["cct", "priorities"]))
+    # capacitated pre-emptive slots, ONE priority class (all_individuals is the live queue there), several never-served waiting
+    for disc in ("FIFO", "LIFO"):
+        out.append(single("slotted capacitated resume 1class %s" % disc, fam, K=5 if tier == "quick" else 6, T=9.0, arr=[0.5, 0.25], srv=[4.0, 1.0],
+                          c={"slotted": {"slots": [1.0, 2.0, 3.0], "sizes": [2, 1, 1], "capacitated": True, "preempt": "resume"}},
+                          nodekw={"discipline": disc}, D=4 if tier == "quick" else 7, features=["slotted", disc]))
     for disc in ("FIFO", "LIFO", "SIRO"):
         out.append(two_class_single("slotted 2class %s" % disc, fam, K=2, T=8.0, prios=(1, 0),
                                     c={"slotted": {"slots": [1.0, 2.0, 3.0], "sizes": [1, 2, 1], "capacitated": False, "preempt": False}},
